@@ -153,6 +153,7 @@ type c19Req struct {
 	Expect  int    `json:"expect"`
 	Create  bool   `json:"create"` // a create by intent (store calls during it mean: past validation)
 	TaskRef string `json:"task_ref,omitempty"`
+	FailAt  int    `json:"fail_at,omitempty"` // the k-th meta-store call made while serving this request is failed
 }
 
 // ---------------- generator ----------------
@@ -595,6 +596,35 @@ var c19Dict = []c19Class{
 			return g.base(n).with("name_mapping", []any{c19obj{{"source_db", "default"}, {"target_db", "tdb"}, {"collection_mapping", c19obj{{"a.b", "x"}}}}})
 		}
 		return g.base(n).with("name_mapping", []any{c19obj{{"source_db", "d.e"}, {"target_db", "tdb"}, {"collection_mapping", c19obj{{n, "x"}}}}})
+	}},
+	{"mapping-dot-target", c19Strict, "accepted-name-with-separator", func(g *c19Gen) c19obj {
+		n := g.freshName()
+		switch g.rng.Intn(3) {
+		case 0: // only the TARGET collection name of a mapping entry carries the separator
+			return g.base(n).with("name_mapping", []any{c19obj{{"source_db", "default"}, {"target_db", "tdb"}, {"collection_mapping", c19obj{{n, "archive.v2"}}}}})
+		case 1: // only the target database
+			return g.base(n).with("name_mapping", []any{c19obj{{"source_db", "default"}, {"target_db", "t.db"}, {"collection_mapping", c19obj{{n, n + "_t"}}}}})
+		}
+		return g.base(n).with("name_mapping", []any{c19obj{{"source_db", "default"}, {"target_db", "t.db"}}})
+	}},
+	// a valid create that writes several checkpoint records (collection positions + rpc position); the k-th store
+	// call of the request fails (k is drawn by the caller, see c19Req.FailAt)
+	{"store-fault", c19Any, "", func(g *c19Gen) c19obj {
+		var d c19obj
+		if g.rng.Intn(2) == 0 {
+			d = g.base(g.freshName())
+		} else {
+			d = g.baseDB(g.pick("default", "db1"), g.freshName())
+		}
+		d = g.withPositions(d, g.validPositions(1+g.rng.Intn(3)))
+		d = d.with("rpc_channel_info", c19obj{{"name", g.replChan}, {"position", c19Pos(g.replChan, c19id8(uint64(1+g.rng.Intn(50))), 0)}})
+		if g.rng.Intn(2) == 0 {
+			d = d.with("task_id", g.freshTaskID())
+		}
+		if g.rng.Intn(3) == 0 {
+			d = d.with("extra_info", c19obj{{"enable_user_role", true}})
+		}
+		return d
 	}},
 	{"mapping-odd-target", c19Any, "", func(g *c19Gen) c19obj {
 		n := g.freshName()
@@ -1119,8 +1149,19 @@ func (g *c19Gen) next(pre int, ep int, limited bool) c19Req {
 		r.Body = c19envelope("create", g.baseDB("*", "*").with("rpc_channel_info", c19obj{{"position", g.pick(g.notBase64(), g.notProto())}}))
 	case 'D':
 		c := c19Dict[(c19DictOrdinal(g.idx)+g.batch*17)%len(c19Dict)]
+		if c19DictOrdinal(g.idx)%7 == 3 {
+			// every 7th dictionary slot: a multi-record create with a store failure at a drawn call
+			for _, x := range c19Dict {
+				if x.Name == "store-fault" {
+					c = x
+				}
+			}
+		}
 		r.Kind, r.Class, r.Expect, r.Create = "dict", c.Name, c.Expect, true
 		r.Body = c19envelope("create", c.Build(g))
+		if c.Name == "store-fault" {
+			r.FailAt = 1 + g.rng.Intn(8)
+		}
 	case 'M':
 		r.Kind = "mut"
 		r.Body, r.Class = g.mutation()
